@@ -26,7 +26,9 @@ Forms == << [s |-> "",      size |-> 0, rev |-> FALSE, base |-> 1],
             [s |-> "$@-",   size |-> 1, rev |-> TRUE,  base |-> 1],
             [s |-> "$$@-3", size |-> 2, rev |-> TRUE,  base |-> 3],
             [s |-> "$$@9",  size |-> 2, rev |-> FALSE, base |-> 9],
-            [s |-> "$@0",   size |-> 1, rev |-> FALSE, base |-> 0] >>
+            [s |-> "$@0",   size |-> 1, rev |-> FALSE, base |-> 0],
+            [s |-> "$@10",  size |-> 1, rev |-> FALSE, base |-> 10],
+            [s |-> "$$$@-12", size |-> 3, rev |-> TRUE, base |-> 12] >>
 
 VARIABLES abbr, ntok, nodes, frames, expect, last,                 \* generator
           phase, limit, work, out, guard, reps, completed, late    \* machine
